@@ -113,13 +113,88 @@ pub fn oracle(st: &State, hist: &[RoundRec], flow: FlowId, rounds_of_flow: &[usi
     bad
 }
 
+fn true_distance(topo: &str) -> Option<u8> {
+    match topo {
+        "L1" => Some(1),
+        "L2" => Some(2),
+        "L3" | "ecmp" | "silent-mid" => Some(3),
+        "L4" => Some(4),
+        _ => None,
+    }
+}
+
+fn real_menu() -> Menu {
+    Menu { delay: true, reorder: true, dup: true, loss: true, ..Menu::default() }
+}
+
+/// Oracle for one real execution: (key, detail, round) for every clause that fails.
+fn judge_real(t: &Task, o: &drive::RunOutcome, true_dist: Option<u8>) -> Vec<(String, String, usize)> {
+    let mut bad = vec![];
+    let mut hist: Vec<RoundRec> = vec![];
+    for (r, pb) in o.world.publishes.iter().enumerate() {
+        hist.push(RoundRec { probes: pb.probes.clone(), largest_ttl: pb.largest_ttl });
+        if let Some(st) = o.round_snapshots.get(r) {
+            let all: Vec<usize> = (0..hist.len()).collect();
+            for (k, detail) in oracle(st, &hist, State::default_flow_id(), &all) {
+                bad.push((format!("{k}:real"), detail, r));
+            }
+        }
+        // a round's path length never exceeds what the round probed
+        let max_probed = pb.probes.iter().filter_map(|s| match s {
+            ProbeStatus::Awaited(a) => Some(a.ttl.0),
+            ProbeStatus::Complete(c) => Some(c.ttl.0),
+            ProbeStatus::Failed(f) => Some(f.ttl.0),
+            _ => None,
+        }).max().unwrap_or(0);
+        if pb.largest_ttl > max_probed {
+            bad.push(("path-length-beyond-probed-ttl:real".into(), format!("path length {} but the highest ttl probed is {max_probed}", pb.largest_ttl), r));
+        }
+        // stable path, target answered, nothing withheld: path length = true distance
+        // ("the target answers" = its reply to the probe sent at its true distance was received in
+        // this round; a reply withheld past the end of the round - lost, delayed or overtaken - is not an answer)
+        let answered_at_distance = |d: u8| pb.probes.iter().any(|s| matches!(s, ProbeStatus::Complete(c) if c.ttl.0 == d));
+        if let (Some(d), true, true) = (true_dist, pb.target_found, true_dist.is_some_and(answered_at_distance)) {
+            if d >= t.params.first_ttl && pb.largest_ttl != d {
+                bad.push(("path-length-not-true-distance:real".into(), format!("path length {} but the target is at distance {d}", pb.largest_ttl), r));
+            }
+        }
+        if let (None, false) = (true_dist, pb.probes.iter().any(|s| matches!(s, ProbeStatus::Complete(_)))) {
+            if pb.largest_ttl != 0 {
+                bad.push(("path-length-nonzero-with-no-answer:real".into(), format!("largest_ttl {} though nothing answered", pb.largest_ttl), r));
+            }
+        }
+    }
+    bad
+}
+
+fn replay_real(path: &str) -> i32 {
+    let (t, choices) = c01::load_task(path);
+    drive::SNAPSHOT_EACH_ROUND.with(|s| s.set(true));
+    let topo = drive::topo_named(&t.cell, t.topo);
+    let net = drive::net_cfg(&t.cell, &t.params, topo, real_menu());
+    let o = drive::run_trace(&t.cell, &t.params, net, Chooser::new(&choices, 100_000));
+    drive::SNAPSHOT_EACH_ROUND.with(|s| s.set(false));
+    println!("replay C10: cell={} topo={} first_ttl={} max_ttl={} choices={:?}", t.cell.name(), t.topo, t.params.first_ttl, t.params.max_ttl, choices);
+    c01::print_trace(&o);
+    let bad = judge_real(&t, &o, true_distance(t.topo));
+    for (k, d, r) in &bad {
+        println!("DISCREPANCY {k}: round {r}: {d}");
+    }
+    if bad.is_empty() {
+        println!("replay: property held");
+        0
+    } else {
+        println!("VIOLATION property=C10 replay={path}");
+        1
+    }
+}
+
 pub fn replay(path: &str) -> i32 {
     let s = std::fs::read_to_string(path).expect("MACHINERY: cannot read replay file");
     let v: serde_json::Value = serde_json::from_str(&s).expect("MACHINERY: replay JSON");
     let r = if v.get("replay").is_some() { &v["replay"] } else { &v };
     let Some(hist_idx) = r["history"].as_array() else {
-        println!("this C10 artefact comes from a real execution: cell/topo/choices are in the file; re-run ./check C10 --tier quick to reproduce");
-        return 2;
+        return replay_real(path);
     };
     let first_ttl = r["first_ttl"].as_u64().unwrap() as u8;
     let al = alphabet(first_ttl);
@@ -167,7 +242,7 @@ pub fn run(args: &Args) -> i32 {
         }
         merge(&findings, local);
     }
-    let depth = if tier == Tier::Thorough { 5 } else { 4 };
+    let depth = if tier == Tier::Thorough { 7 } else { 5 };
     let mut tasks = vec![];
     for first_ttl in [1u8, 2, 5] {
         for first in 0..alphabet(first_ttl).len() {
@@ -210,7 +285,16 @@ pub fn run(args: &Args) -> i32 {
         for topo in ["L1", "L2", "L3", "L4", "ecmp", "silent-target", "silent-mid", "silent-all"] {
             for first_ttl in [1u8, 2, 3] {
                 let p = TraceParams { first_ttl, rounds: 3, packet_size: if cell.v6 { 96 } else { 84 }, ..TraceParams::default() };
-                rtasks.push(Task { cell, topo, params: p, bound: if tier == Tier::Thorough { 2 } else { 1 } });
+                rtasks.push(Task { cell, topo, params: p, bound: if tier == Tier::Thorough { 3 } else { 2 } });
+            }
+        }
+    }
+    // max_ttl short of the target's distance: the last probed hop answers, the target is never reached
+    for cell in drive::base_cells() {
+        for topo in ["L3", "L4", "silent-target", "silent-mid"] {
+            for (first_ttl, max_ttl) in [(1u8, 1u8), (1, 2), (2, 2), (1, 3), (2, 3)] {
+                let p = TraceParams { first_ttl, max_ttl, rounds: 3, packet_size: if cell.v6 { 96 } else { 84 }, ..TraceParams::default() };
+                rtasks.push(Task { cell, topo, params: p, bound: if tier == Tier::Thorough { 3 } else { 2 } });
             }
         }
     }
@@ -219,48 +303,18 @@ pub fn run(args: &Args) -> i32 {
         let t = &rtasks[ti];
         let mut local = Findings::new();
         let mut rounds = 0u64;
-        let true_dist: Option<u8> = match t.topo {
-            "L1" => Some(1),
-            "L2" => Some(2),
-            "L3" | "ecmp" | "silent-mid" => Some(3),
-            "L4" => Some(4),
-            _ => None,
-        };
+        let true_dist = true_distance(t.topo);
         drive::SNAPSHOT_EACH_ROUND.with(|s| s.set(true));
         let stats = mc::explore(t.bound, 400, &mut |ch| {
             let c = std::mem::replace(ch, Chooser::new(&[], 0));
             let topo = drive::topo_named(&t.cell, t.topo);
-            let net = drive::net_cfg(&t.cell, &t.params, topo, Menu { delay: true, reorder: true, dup: true, loss: true, ..Menu::default() });
+            let net = drive::net_cfg(&t.cell, &t.params, topo, real_menu());
             let o = drive::run_trace(&t.cell, &t.params, net, c);
             *ch = o.world.chooser.clone();
-            let mut hist: Vec<RoundRec> = vec![];
-            for (r, pb) in o.world.publishes.iter().enumerate() {
-                hist.push(RoundRec { probes: pb.probes.clone(), largest_ttl: pb.largest_ttl });
-                rounds += 1;
-                if let Some(st) = o.round_snapshots.get(r) {
-                    let all: Vec<usize> = (0..hist.len()).collect();
-                    for (k, detail) in oracle(st, &hist, State::default_flow_id(), &all) {
-                        let key = format!("{k}:real");
-                        let e = local.entry(key.clone()).or_insert(Finding { key, detail: format!("[{} {} first_ttl={} choices={:?} round {r}] {detail}", t.cell.name(), t.topo, t.params.first_ttl, ch.choices), replay: c01::replay_json("C10", t, &ch.choices), weight: (ch.deviations(), r), count: 0 });
-                        e.count += 1;
-                    }
-                }
-                // stable path, target answered, nothing withheld: path length = true distance
-                let undisturbed = o.world.n_loss == 0 && o.world.n_delay == 0;
-                if let (Some(d), true, true) = (true_dist, pb.target_found, undisturbed) {
-                    if d >= t.params.first_ttl && pb.largest_ttl != d {
-                        let key = "path-length-not-true-distance:real".to_string();
-                        let e = local.entry(key.clone()).or_insert(Finding { key, detail: format!("[{} {} first_ttl={} choices={:?}] round {r}: path length {} but the target is at distance {d}", t.cell.name(), t.topo, t.params.first_ttl, ch.choices, pb.largest_ttl), replay: c01::replay_json("C10", t, &ch.choices), weight: (ch.deviations(), r), count: 0 });
-                        e.count += 1;
-                    }
-                }
-                if let (None, false) = (true_dist, pb.probes.iter().any(|s| matches!(s, ProbeStatus::Complete(_)))) {
-                    if pb.largest_ttl != 0 {
-                        let key = "path-length-nonzero-with-no-answer:real".to_string();
-                        let e = local.entry(key.clone()).or_insert(Finding { key, detail: format!("[{} {}] round {r}: largest_ttl {} though nothing answered", t.cell.name(), t.topo, pb.largest_ttl), replay: c01::replay_json("C10", t, &ch.choices), weight: (ch.deviations(), r), count: 0 });
-                        e.count += 1;
-                    }
-                }
+            rounds += o.world.publishes.len() as u64;
+            for (key, detail, r) in judge_real(t, &o, true_dist) {
+                let e = local.entry(key.clone()).or_insert(Finding { key, detail: format!("[{} {} first_ttl={} max_ttl={} choices={:?}] round {r}: {detail}", t.cell.name(), t.topo, t.params.first_ttl, t.params.max_ttl, ch.choices), replay: c01::replay_json("C10", t, &ch.choices), weight: (ch.deviations(), r), count: 0 });
+                e.count += 1;
             }
             local.len() < 40
         });
@@ -282,7 +336,7 @@ pub fn run(args: &Args) -> i32 {
     rep.set("synthetic_depth_completed", json!(depth));
     rep.set("real_executions", json!(rstats.executions));
     rep.set("real_rounds_checked", json!(rrounds));
-    rep.set("rule", json!(format!("synthetic: 14 round shapes (path lengths 1..4, answering/silent target, unknown hops, failed and re-issued probes; largest_ttl by the strategy's contract) x first_ttl {{1,2,5}}: ALL histories to depth {depth} on the real State, de-duplicated on (depth, getter results); after every round: hops() empty iff no path length, else consecutive ttl lowest-probed..=max path length with each probed hop carrying its ttl, target_hop/is_target/is_in_round at the latest round's length, no query panics (also on the empty state). real: 14 cells x 8 topologies x first_ttl {{1,2,3}} x 3 rounds, all executions with <= 1 (2 thorough) deviation, same oracle on the snapshot at every publish + path length = true distance on undisturbed stable paths, 0 when nothing answers")));
+    rep.set("rule", json!(format!("synthetic: 14 round shapes (path lengths 1..4, answering/silent target, unknown hops, failed and re-issued probes; largest_ttl by the strategy's contract) x first_ttl {{1,2,5}}: ALL histories to depth {depth} on the real State, de-duplicated on (depth, getter results); after every round: hops() empty iff no path length, else consecutive ttl lowest-probed..=max path length with each probed hop carrying its ttl, target_hop/is_target/is_in_round at the latest round's length, no query panics (also on the empty state). real: 14 cells x 8 topologies x first_ttl {{1,2,3}} x 3 rounds + 14 cells x 4 topologies x (first_ttl,max_ttl) in {{(1,1),(1,2),(2,2),(1,3),(2,3)}} (max_ttl short of the target), path length <= highest ttl probed in the round, all executions with <= 2 (3 thorough) deviations, same oracle on the snapshot at every publish + path length = true distance in every round in which the target's reply to the probe at its true distance was received, 0 when nothing answers")));
     for s in samples {
         rep.sample(s);
     }
